@@ -336,7 +336,9 @@ func c08Space(x *mc.Exec) {
 
 // reserved characters in ids, page values, filter labels and filter strings; nested filter trees
 func c08Reserved(x *mc.Exec) {
-	specials := []string{"a b", "a%26b", "a%3Fb", "a%23b", "a%25b", "a%2Bb", "a%2Fb", "a+b", "a%3Db", "a%2Cb", "%C3%A9", "a%20b%26c%3Dd"}
+	specials := []string{"a b", "a%26b", "a%3Fb", "a%23b", "a%25b", "a%2Bb", "a%2Fb", "a+b", "a%3Db", "a%2Cb", "%C3%A9", "a%20b%26c%3Dd",
+		// blank-only and blank-padded values are values like any other
+		" ", "%09", " a "}
 	where := x.Choose(6, "where")
 	sp := specials[x.Choose(len(specials), "special")]
 	soft := x.Choose(2, "schema") == 0
@@ -428,7 +430,7 @@ func c08Trees(x *mc.Exec) {
 func init() {
 	Register(&Prop{
 		ID: "C08",
-		Rule: "Engine A, all choices Full: every URL of the C07 query space (17 paths x ordered sequences of 0..2 parameters, thorough: plus, on four representative paths, a third one out of one instance per parameter name, from the ~120-instance menu incl. and/or operators in other letter cases and a type whose field names differ by case only) that the parser accepts; ids, page values, page keys, filter labels and filter strings containing each of 12 reserved-character samples (space & ? # % + / = , non-ASCII) at 6 positions; every and/or filter tree of depth <= 2 and fan-out <= 2 with and without a collation on each operator node (thorough: plus depth 3 with the collation choice at the root). Oracle: String() parses, the re-parsed URL has the same fragments, type, id, relationship, field selection, sorting rules, page map (collection URLs), filter label / canonical filter JSON, and its String() is the same text; String() itself changes nothing read from the URL and is repeatable; every permutation of differently named parameters, reversal of fields/include lists and insertion of empty items yields the same String(). Non-trivial = accepted URL",
+		Rule: "Engine A, all choices Full: every URL of the C07 query space (17 paths x ordered sequences of 0..2 parameters, thorough: plus, on four representative paths, a third one out of one instance per parameter name, from the ~120-instance menu incl. and/or operators in other letter cases and a type whose field names differ by case only) that the parser accepts; ids, page values, page keys, filter labels and filter strings containing each of 15 reserved-character samples (space & ? # % + / = , non-ASCII, blank-only and blank-padded values) at 6 positions; every and/or filter tree of depth <= 2 and fan-out <= 2 with and without a collation on each operator node (thorough: plus depth 3 with the collation choice at the root). Oracle: String() parses, the re-parsed URL has the same fragments, type, id, relationship, field selection, sorting rules, page map (collection URLs), filter label / canonical filter JSON, and its String() is the same text; String() itself changes nothing read from the URL and is repeatable; every permutation of differently named parameters, reversal of fields/include lists and insertion of empty items yields the same String(). Non-trivial = accepted URL",
 		Assumptions: []string{"'page parameters' = the whole Page map of a collection URL"},
 		Harnesses: []Harness{
 			{Name: "C08/space", Body: c08Space, Dev: func() int { return 1 }},
